@@ -108,7 +108,7 @@ Section A.
   Definition tree_of (k : ckey) : expr := fst (parse (fst k) (snd k)).
 
   Definition wf (st : istate) : Prop :=
-    (forall k e, plookup k (pcache st) = Some e -> e = tree_of k) /\
+    (forall k e, plookup k (pcache st) = Some e -> e = tree_of k /\ snd (parse (fst k) (snd k)) = snd k) /\
     (forall k c, clookup k (ccache st) = Some (Some c) -> c = tree_of k /\ syn c = true) /\
     (forall k p c, mlookup (k, p) (memo st) = Some (Some c) -> subexpr (tree_of k) p = Some c /\ syn c = true).
 
@@ -245,35 +245,37 @@ Section A.
       destruct (compiled_sound _ _ _ Hy EO EP) as [_ Hpure]. rewrite Hpure. reflexivity.
   Qed.
 
-  (* __call__ with the (text, module) key, outside the known-finding class *)
+  (* __call__ with the (text, module) key and switching texts kept out of the parse cache *)
   Lemma run_cached_correct st t :
-    wf st -> cached_switch true parse st t = false ->
-    let r := run_cached true clear_on_set true parse st t in
+    wf st ->
+    let r := run_cached true clear_on_set true parse true st t in
     wf (snd r) /\
     (fst r, (cur (snd r), vars (snd r))) = eval_ref parse (cur st, vars st) t.
   Proof.
-    intros W HK. unfold run_cached, eval_ref, cached_switch, key_of in *. cbn [fst snd] in *.
+    intros W. unfold run_cached, eval_ref, key_of in *. cbn [fst snd] in *.
     change (if true then cur st else 0) with (cur st) in *.
     set (k := (t, cur st)) in *.
     destruct (plookup k (pcache st)) as [e|] eqn:EP.
-    - assert (e = tree_of k) by (apply (proj1 W); exact EP). subst e.
+    - destruct (proj1 W _ _ EP) as [He Hn]. subst e.
       destruct (run_tree_correct k st W) as (Wr & Cr & Er). cbn zeta in *.
       split; [exact Wr|].
-      apply negb_false_iff, Z.eqb_eq in HK.
       unfold tree_of, k in *; cbn [fst snd] in *.
       destruct (parse t (cur st)) as [e m'] eqn:EQ. cbn [fst snd] in *. subst m'.
-      rewrite Cr. destruct (eval_pure e (vars st)) as [rr ss]. inversion Er. reflexivity.
+      destruct (eval_pure e (vars st)) as [rr ss].
+      injection Er as E1 E2. exact (f_equal2 pair E1 (f_equal2 pair Cr E2)).
     - destruct (parse t (cur st)) as [e m'] eqn:EQ.
       assert (He : e = tree_of k) by (unfold tree_of, k; cbn; rewrite EQ; reflexivity).
       assert (Href : eval_pure e (vars st) = eval_pure (tree_of k) (vars st)) by (rewrite He; reflexivity).
-      rewrite Href. clear Href. rewrite He. clear He EQ e.
-      set (st0 := mk_istate (vars st) m' ((k, tree_of k) :: pcache st) (ccache st) (memo st)).
-      assert (W0 : wf st0).
+      rewrite Href. clear Href. rewrite He.
+      cbn [andb].
+      set (pc := if negb (m' =? cur st) then pcache st else (k, tree_of k) :: pcache st).
+      assert (W0 : wf (mk_istate (vars st) m' pc (ccache st) (memo st))).
       { destruct W as (Wa & Wb & Wc). split; [|split; cbn; assumption].
-        cbn. intros k' e' Hl. destruct (ckey_eqb k' k) eqn:EK.
-        + apply ckey_eqb_eq in EK. subst k'. congruence.
+        cbn. unfold pc. destruct (Z.eqb_spec m' (cur st)) as [Em|Em]; cbn [negb]; [|exact Wa].
+        intros k' e' Hl. cbn [plookup] in Hl. destruct (ckey_eqb k' k) eqn:EK.
+        + apply ckey_eqb_eq in EK. subst k'. split; [congruence|]. unfold k; cbn. rewrite EQ. cbn. exact Em.
         + apply Wa. exact Hl. }
-      pose proof (run_tree_correct k st0 W0) as HR. unfold st0 in *. clear st0. cbv zeta in HR.
+      pose proof (run_tree_correct k _ W0) as HR. cbv zeta in HR.
       destruct HR as (Wr & Cr & Er). cbn [cur vars] in Cr, Er.
       split; [exact Wr|].
       destruct (eval_pure (tree_of k) (vars st)) as [rr ss].
@@ -281,36 +283,25 @@ Section A.
   Qed.
 
   Lemma history_correct h : forall st,
-    wf st -> no_cached_switch true clear_on_set true parse st h = true ->
-    wf (state_after true clear_on_set true parse st h) /\
-    (cur (state_after true clear_on_set true parse st h), vars (state_after true clear_on_set true parse st h))
+    wf st ->
+    wf (state_after true clear_on_set true parse true st h) /\
+    (cur (state_after true clear_on_set true parse true st h), vars (state_after true clear_on_set true parse true st h))
       = ref_after parse (cur st, vars st) h.
   Proof.
-    induction h as [|t r IH]; intros st W HK; cbn [state_after ref_after no_cached_switch] in *; [split; [exact W|reflexivity]|].
-    apply andb_true_iff in HK. destruct HK as [HK1 HK2]. apply negb_true_iff in HK1.
-    destruct (run_cached_correct st t W HK1) as [W' E]. cbn zeta in *.
-    destruct (IH _ W' HK2) as [W2 E2]. split; [exact W2|]. rewrite E2. f_equal.
+    induction h as [|t r IH]; intros st W; cbn [state_after ref_after] in *; [split; [exact W|reflexivity]|].
+    destruct (run_cached_correct st t W) as [W' E]. cbn zeta in *.
+    destruct (IH _ W') as [W2 E2]. split; [exact W2|]. rewrite E2. f_equal.
     destruct (eval_ref parse (cur st, vars st) t) as [rr ms]. inversion E. reflexivity.
   Qed.
 
   Lemma cache_transparent s0 h t :
-    no_cached_switch true clear_on_set true parse (fresh s0) (h ++ [t]) = true ->
-    let st := state_after true clear_on_set true parse (fresh s0) h in
-    let r := run_cached true clear_on_set true parse st t in
+    let st := state_after true clear_on_set true parse true (fresh s0) h in
+    let r := run_cached true clear_on_set true parse true st t in
     (fst r, (cur (snd r), vars (snd r))) = eval_ref parse (cur st, vars st) t
     /\ (cur st, vars st) = ref_after parse (0, s0) h.
   Proof.
-    intros HK. cbn zeta.
-    assert (Hsplit : forall h st, no_cached_switch true clear_on_set true parse st (h ++ [t]) = true ->
-              no_cached_switch true clear_on_set true parse st h = true /\
-              cached_switch true parse (state_after true clear_on_set true parse st h) t = false).
-    { induction h0 as [|a r IH]; intros st H; cbn [app no_cached_switch state_after] in *.
-      - apply andb_true_iff in H. destruct H as [H _]. apply negb_true_iff in H. split; [reflexivity|exact H].
-      - apply andb_true_iff in H. destruct H as [H1 H2]. destruct (IH _ H2) as [Ha Hb]. rewrite H1, Ha. split; [reflexivity|exact Hb]. }
-    destruct (Hsplit h (fresh s0) HK) as [Hh Ht].
-    destruct (history_correct h (fresh s0) (wf_fresh s0) Hh) as [W E].
-    split; [|exact E].
-    apply run_cached_correct; assumption.
+    cbn zeta. destruct (history_correct h (fresh s0) (wf_fresh s0)) as [W E].
+    split; [|exact E]. apply run_cached_correct; assumption.
   Qed.
 End A.
 
